@@ -17,9 +17,12 @@ type writeSet struct {
 	cells map[*Cell]bool
 	heaps map[string]string // name -> sort
 	all   bool
+	ghosts map[string]bool
 }
 
-func newWriteSet() *writeSet { return &writeSet{cells: map[*Cell]bool{}, heaps: map[string]string{}} }
+func newWriteSet() *writeSet {
+	return &writeSet{cells: map[*Cell]bool{}, heaps: map[string]string{}, ghosts: map[string]bool{}}
+}
 
 func (x *Exec) loopKey(fr *Frame, ord int) string { return fmt.Sprintf("%s%d", fr.loopPfx, ord) }
 
@@ -38,6 +41,21 @@ func (x *Exec) atLoopHeader(st *State, fr *Frame, h *ssa.BasicBlock, ord int, pr
 	isBack := prev != nil && li.body[h][prev]
 	if x.probing {
 		return !isBack
+	}
+	if x.bounded > 0 {
+		// bounded concretisation (failing-input search only): no invariants,
+		// loops unrolled up to the bound, longer executions are cut off
+		al := fr.active[h]
+		if !isBack || al == nil {
+			fr.active[h] = &activeLoop{header: h}
+			return true
+		}
+		al.iters++
+		if al.iters > x.bounded {
+			st.assume(tFalse)
+			return false
+		}
+		return true
 	}
 	if spec == nil || spec.Unroll > 0 {
 		bound := 0
@@ -162,6 +180,11 @@ func (x *Exec) havocWriteSet(st *State, ws *writeSet, why string) {
 			continue
 		}
 		st.cells[c] = x.symbolicLike(st, cv, "lp."+c.name)
+	}
+	for _, g := range sortedKeys(ws.ghosts) {
+		if old, ok := st.ghost[g]; ok {
+			st.ghost[g] = x.freshLike(st, old, "lp.ghost."+g)
+		}
 	}
 	names := make([]string, 0, len(ws.heaps))
 	for n := range ws.heaps {
@@ -548,6 +571,8 @@ func (x *Exec) scanContractAssigns(c *FuncContract, key string, fn *ssa.Function
 		switch a.Kind {
 		case "all":
 			ws.all = true
+		case "ghost":
+			ws.ghosts[a.Heap] = true
 		case "heap":
 			env := &SpecEnv{x: x, pkg: x.pkgOfKey(key, fn)}
 			name := x.resolveHeapName(env, a.Heap)
